@@ -190,12 +190,6 @@ func compareWithModel(r *rec, api string, orig, red map[string]interface{}) *hx.
 	// content key set
 	want := setOf(r.KCon)
 	got := setOf(obs.Con)
-	if r.Free && got[nestedKey] {
-		// specification silent: an emptied third_party_invite object may stay
-		if t, ok := red["content"].(map[string]interface{})[nestedKey].(map[string]interface{}); ok && len(t) == 0 {
-			delete(got, nestedKey)
-		}
-	}
 	if k, keeps, diff := firstDiff(want, got); diff {
 		name := k
 		if k == nestedKey && keeps {
